@@ -104,6 +104,10 @@ def exit_scenarios(rng, n):
                 op['worker_lifespan'] = rng.choice([1, 2])
         elif r < .35:
             sc['rules'] = gen.schedule_rules(rng, pool['n_jobs'])
+        if cause not in ('sigint',) and rng.random() < .35:
+            # whatever the caller has installed for SIGINT — the OS default action, "ignore", a function of its own — is what is
+            # found there afterwards
+            sc['sigint_disposition'] = rng.choice(['ign', 'dfl', 'custom'])
         # cycles: the same thing several times on one pool accumulates nothing
         reps = rng.choice([1, 1, 2, 3]) if cause not in ('sigkill', 'sigint', 'abandoned_imap', 'mixed_map', 'terminate_during_imap', 'explicit_join', 'setter_cycle') else 1
         sc['ops'] = [copy.deepcopy(o) for _ in range(reps) for o in ops]
